@@ -45,6 +45,10 @@ def run(ctx):
     import pskel as _pskel
     _pskel.rule_P_PRIM(ctx)
     _pskel.rule_P_SKELETON(ctx)
+    # naming-law lints over the modules this property lives in (sibling slips: truth<->budget, stamp<->punctuation, left<->right, swapped arguments)
+    import roles as _roles
+    _roles.rule_R_ROLE(ctx, modules=('conversion::string::impl_enum::parser', 'enum_narsese::'))
+    _roles.rule_A_NAMES(ctx, modules=('conversion::string::impl_enum::parser', 'enum_narsese::'))
     ctx.undecided = ["bounds obligations backed by a reviewed invariant rather than a machine proof (see `why` of each table entry)",
                      "stack depth: recursion is linear in bracket nesting (the property bounds nesting at 64)",
                      "termination/panic-freedom of external std/dependency callees not on the may-panic list (assumed total, listed in the evidence)"]
